@@ -15,13 +15,13 @@ from tools.vlib import Outcome, sx
 from tools.props import c02_gen as G
 
 MANIFEST = {
-    "level_text": "Coq theorems (Properties/C02.v, no axioms) about a set-level Gallina model of what types.ts, commands.ts, events.ts and index.ts export, import and mention in each mode (faithful to the code after the accepted repairs of batch 2, remaining defects included): the boolean closedness oracle is sound and complete for the Prop-level definition (reflection), duplicate-freedom of exports is decided exactly by dups = [], and for every well-formed project, outside the recorded defect classes and under the decidable side condition that every custom name mentioned is declared, the model's module graph is closed and declares nothing twice, in plain mode and in Zod mode; the witnesses of the repaired defects (Zod enum alias, one-argument Result, dependencies of event payload types, the same event emitted twice, ipc::Channel) are proved to satisfy the oracle outside every class. The model and the oracle are tied to /repo on every run: the real CLI is run on closed-world projects (custom types at every structural position of every site, enums, events, channels, type mappings, adversarial names) and the parsed files must have exactly the export/import/reference sets the model predicts.",
+    "level_text": "Coq theorems (Properties/C02.v, no axioms) about a set-level Gallina model of what types.ts, commands.ts, events.ts and index.ts export, import and mention in each mode (faithful to the code after the accepted repairs of batches 2 and 3, remaining defects included): the boolean closedness oracle is sound and complete for the Prop-level definition (reflection), duplicate-freedom of exports is decided exactly by dups = [], and for every well-formed project, outside the recorded defect classes and under the decidable side condition that every custom name mentioned is declared, the model's module graph is closed and declares nothing twice, in plain mode and in Zod mode; the witnesses of the repaired defects (Zod enum alias, one-argument Result, dependencies of event payload types, the same event emitted twice, ipc::Channel) are proved to satisfy the oracle outside every class. The model and the oracle are tied to /repo on every run: the real CLI is run on closed-world projects (custom types at every structural position of every site, enums, events, channels, type mappings, adversarial names) and the parsed files must have exactly the export/import/reference sets the model predicts.",
     "design_ref": "DESIGN.md section 5 C02, section 12",
     "level_note": "Partial: the step from the property's premise (closed_world) to the side condition refs_declared (every mentioned custom name is among the declared ones) is stated as C02_closed_world_full_statement and is not proved; it needs the harvest/parse agreement lemmas lifted to projects and a closure argument for resolve_types_lazily/collect_used_types. It is checked on every generated case at run time instead (closed_world and no class => the model predicts a closed graph). Reference sets are name sets: that a rendered type text lexes to exactly these names is C01/C05's business and is covered here only by the correspondence run. Function bodies are token sequences: only types.X members, call heads and instanceof operands are resolved there. Cross-module ambiguity through index.ts's two export * (command on_x beside listener onX) and import/declaration conflicts (struct named Channel) are observed and compared with the model but not judged: the property text speaks of names a module declares.",
     "technique": "Rocq/Coq proof over hand-written model + correspondence check (extracted OCaml oracle on the real CLI's output vs extracted model)"
 }
 
-RULE = ("corpus: one witness per recorded finding; adversarial: 37 hand-written naming/shape projects x 2 modes; positions: every "
+RULE = ("corpus: one witness per recorded finding; adversarial: 40 hand-written naming/shape projects x 2 modes; positions: every "
         "(site in param/return/field/channel/event) x (18 constructor contexts of projgen.CONTEXTS) x (struct|enum leaf) x 2 modes, "
         "exhaustively; crossfile: multi-file projects in which every root type (per root kind: parameter / return / channel message / event payload "
         "through a helper fn, a command, a struct literal / emit_to) and every dependency is defined in another file than the function or type that "
@@ -35,7 +35,7 @@ TRUSTED = ["Spec/TsLex.v + TsModule.v (module parser) and Spec/C02Closed.v summa
 ASSUMPTIONS = ["the set of TypeScript built-in names is Spec/C02Closed.v builtin_names",
                "type names and command names are unique per project; event names mangle to identifiers; mapping targets are string/number/boolean/void (wf)"]
 
-KF_ORDER = ["C02-1", "C02-2", "C02-6", "C02-7", "C02-8"]   # order of the kf flags in c02_model
+KF_ORDER = ["C02-2", "C02-6", "C02-7", "C02-8"]   # order of the kf flags in c02_model
 FILES = ("types.ts", "commands.ts", "events.ts", "index.ts")
 DEV = bool(os.environ.get("C02_SKIP_BUILD"))
 
